@@ -1,7 +1,7 @@
 (* C02 -- all views of the learned metric agree with M = L^T L.
    Stated about gen/Src_query.v (translated from base_metric.py on this run). Carrier: R. *)
 From Coq Require Import List Reals.
-From ML Require Import Ops Vec VecR Mahalanobis C01Proof C02Proof.
+From ML Require Import Ops Vec VecR Mahalanobis NPFacts C01Proof C02Shape C02Proof.
 From MLgen Require Import Src_query.
 Import ListNotations.
 Open Scope R_scope.
